@@ -121,10 +121,12 @@ def bin_edges(bins, vals, right):
             mx, mn = mx + 0.5, mn - 0.5
         bb = np.linspace(mn, mx, nb + 1)
         p = 0.001 * (mx - mn)
+        # the widening must actually move the end (documented guarantee: automatic bins cover the
+        # data); when p is below round-off of the edge, one ulp is the smallest move that does
         if right:
-            bb[0] -= p
+            bb[0] = min(bb[0] - p, np.nextafter(bb[0], -np.inf))
         else:
-            bb[-1] += p
+            bb[-1] = max(bb[-1] + p, np.nextafter(bb[-1], np.inf))
         return bb, True
     return np.array(bins, dtype=float), False
 
